@@ -7,10 +7,25 @@ RULES = {
           "spectrum family, A/P forms, shapes, b/x0 kinds, return styles, max_iter, tol>0, fault kinds, "
           "run-length-compressed action sequence)",
 }
+RULES["pg"] = ("one session = one seeded plan (composite problem 1/2||Mx-y||^2+g(x), g in none/l1/l2/box, real or complex, "
+               "benign or worst-case conditioning, callbacks as closures or sigpy Prox/Linop objects with buggify return styles, "
+               "GradientMethod (step c/L, accelerate on/off) or PrimalDualHybridGradient (scalar or Pock-Chambolle array steps, "
+               "gamma none/primal/dual/both, start random/zero/exact saddle), caller schedule of update/done/peek) executed against "
+               "the real solver with every update judged; non-trivial = at least one update judged against the KKT-certified "
+               "reference; distinct = distinct fingerprints of (solver, field, g, family, callback form, return style, n, m, start, "
+               "step factor, accelerate, step kind, gamma, long run, K, log10 lam, sigma bucket, compressed action sequence)")
 SIMTIME_UNIT = {
+    "pg": "solver updates (no clock in this world; logical steps)",
     "cg": "solver updates (this world has no clock; logical steps are reported)",
 }
 ASSUMPTIONS = {
+    "pg": [
+        "reference minimiser is KKT-certified (prox-gradient residual <= 1e-11 relative); uncertified instances are discarded and counted",
+        "rate bounds use L' = 1/alpha >= L, the Lipschitz constant the chosen step certifies",
+        "Fejer monotonicity is checked in the M-norm pairing x before with u after the half-step (proximal-point form); constant steps only",
+        "bounded convergence (2000 updates, within 1e-1 of the initial distance; worst observed 6e-4) only on the benign family (cond <= 5, m >= n)",
+        "step-size arrays are exempt from the ledger when acceleration rescales them in place",
+    ],
     "cg": [
         "dense float64 reference (Arnoldi + Galerkin solve) is exact to ~cond*eps",
         "tolerance for Krylov optimality is tied to a textbook PCG run on the same instance in the same precision",
